@@ -238,6 +238,11 @@ def evaluate(case, keep_scratch=False):
     tmpdir = _scratch_dir() if case.get('cli') else None
     try:
         spec = _spec_of(case)
+        if case.get('ooaofooa'):
+            try:
+                Reference(spec).identifier_violations()
+            except (RuntimeError, RecursionError):
+                return []     # referential attributes that refer to each other in a circle: no defined value, case skipped
         out = _checks(case, spec, tmpdir)
         if out and not case.get('ooaofooa'):
             twin = _upper_types(spec)
@@ -671,7 +676,7 @@ def subtypes(ctx):
             'loaded and via API (with unrelate/delete); xtuml tool with 4 sampled (quick) / all (thorough) subsets of -r and -k; sampled',
       shards=4, weight=2)
 def random_models(ctx):
-    count = 250 if ctx.quick else 2500   # per shard
+    count = 250 if ctx.quick else 1200   # per shard
     _drive(ctx, random_cases(ctx.rng, count, not ctx.quick), sharded=False)
     ctx.exhausted = False
 
@@ -681,7 +686,7 @@ def random_models(ctx):
             'counts come from the metamodel text read with regular expressions (324 classes, 646 associations); -r, -k, -g; sampled',
       shards=3, weight=1)
 def bridgepoint_tool(ctx):
-    count = 20 if ctx.quick else 250     # per shard
+    count = 20 if ctx.quick else 150     # per shard
     _drive(ctx, ooaofooa_cases(ctx.rng, count, not ctx.quick), sharded=False)
     ctx.exhausted = False
 
